@@ -192,6 +192,25 @@ def member_reads(prog, eff, unit, fn):
     return out
 
 
+def member_reads_interp(prog, unit, fn):
+    """member names handed to json_object_get on any path of fn (interpreter; used when a name is not a literal at the call site)"""
+    env = Env(prog)
+    model = build_model()
+    names = set()
+
+    def h_get(it, st, args, node):
+        if len(args) > 1 and isinstance(args[1], Str):
+            names.add(args[1].text().split('\0')[0])
+        else:
+            names.add('<computed>')
+        return c04.h_json_object_get(it, st, args, node)
+    rule = ImportRule()
+    it = Interp(prog, unit, model=model, rule=rule, hooks=H.std_hooks(env, extra={'json_object_get': h_get}), budget=900000)
+    st, item, jwk = c07.item_state(env)
+    it.run(fn, [Ref(jwk), Ref(item)], st)
+    return names
+
+
 def check_member_sets(chk, prog):
     eff = effects.Effects(prog)
     n = 0
@@ -204,6 +223,9 @@ def check_member_sets(chk, prog):
     for unit, fn, kind in table:
         n += 1
         got = member_reads(prog, eff, unit, fn)
+        if '<computed>' in got:
+            # names that are not literals at the call (a table, a helper parameter): take them from the interpreted paths
+            got = (got - {'<computed>'}) | member_reads_interp(prog, unit, fn)
         extra = got - MEMBERS[kind]
         if extra:
             bad += 1
@@ -478,7 +500,11 @@ def check_curve_field(chk, prog, rulename='C08.curve-field'):
                 copies.append((name, list(args), node_loc(node), self.where))
     for (unit, fn) in sorted(eff.ops_fields.get('process_ec', ())):
         rule = CurveRule()
-        hooks = H.std_hooks(env, extra={'json_object_get': c04.h_json_object_get})
+
+        def h_strnlen(it, st, args, node):
+            # strnlen(s, max): at most max; the bound is kept in the term so that a copy sized by it can be judged
+            return [(st, Term(('strnlen', vkey(args[0]), args[1].v if isinstance(args[1], Int) else None)))]
+        hooks = H.std_hooks(env, extra={'json_object_get': c04.h_json_object_get, 'strnlen': h_strnlen})
         it = Interp(prog, unit, model=model, rule=rule, hooks=hooks, budget=900000)
         st, item, jwk = c07.item_state(env)
         rule.item = item
@@ -497,6 +523,8 @@ def check_curve_field(chk, prog, rulename='C08.curve-field'):
         if name in ('memset', 'strlen', 'strcmp', 'strncmp'):
             n -= 1
             continue
+        if isinstance(bound, Term) and bound.k[0] == 'strnlen' and bound.k[2] is not None:
+            bound = Int(bound.k[2])        # copies min(strlen, max) bytes: carries up to max characters
         if not isinstance(bound, Int):
             raise AnalysisBroken('%s into item->curve with a bound that is not a constant (%r)' % (name, bound))
         chars = bound.v - 1 if name in ('snprintf', 'strlcpy') else bound.v
